@@ -23,6 +23,8 @@ class C19(Prop):
         yield 'corpus', corpus
         yield 'comment', [{'op': 'comment.str', 'content': G.gen_content(rng, rng.choice([0, 2, 4]))}
                           for _ in range(n)]
+        yield 'extended', [{'op': 'comment.str', 'content': G.gen_content(rng, rng.choice([0, 2])),
+                            'extend': G.gen_content(rng, rng.choice([0, 1, 2]))} for _ in range(n // 2)]
 
     def impl(self, case):
         return G.run_text_op(case)
